@@ -367,7 +367,7 @@ def count_nodes(chain):
 # ---------------------------------------------------------------------------------------------
 # random ASTs
 
-NAMES = ['A', 'B', 'C', 'PEO', 'PMA', 'X1', 'a2b', 'OH']
+NAMES = ['A', 'B', 'C', 'PEO', 'PMA', 'X1', 'a2b', 'OH', '2VP', '12', '0x']
 
 
 def random_ast(rng, n_nodes, max_depth=3, p_branch=0.35, p_bond=0.3, n_rings=0, p_mult_node=0.0,
@@ -461,7 +461,9 @@ def add_rings(rng, ast, n_rings, orders=(0, 1, 2, 3, 4), p_bond=0.3, p_pct=0.3, 
         # a multiplied node between/adjacent makes adjacency ambiguous only for the multiplied node itself (excluded)
         used = {m for (a, b, m) in open_iv if not (b < i or a > j)}
         pct = rng.random() < p_pct
-        pool = [m for m in (range(10, 100) if pct else range(1, 10)) if m not in used]
+        pool = [m for m in (range(0, 100) if pct else range(0, 10)) if m not in used]
+        if pct and rng.random() < 0.7:
+            pool = [m for m in pool if m >= 10] or pool
         if not pool:
             continue
         m = rng.choice(pool)
